@@ -208,8 +208,7 @@ def build_rowoff(f, trace):
 
 def build_render(f, trace):
     q = 'render'
-    f = sub_once(f, 'render_config.width().max(render_config.height())', 'max_u32_(render_config.width(), render_config.height())', q)
-    trace.fire('R-minmax')
+    f = sub_re(f, r'render_config\.width\(\)\.max\(render_config\.height\(\)\)', 'max_u32_(render_config.width(), render_config.height())', q, 'any', trace, 'R-minmax')
     f = sub_once(f, 'super::render_tiles::<F, Worker<F>, _>(', 'render_tiles::<F>(', q)
     trace.fire('R-stub')
     f = sub_once(f, '    for (tile, out) in tiles {\n', '    for k_ in 0..tiles.len() {\n        let (tile, out) = (&tiles[k_].0, &tiles[k_].1);   // R-iter-tuple\n', q)
